@@ -87,10 +87,14 @@ def overlap(progs):
                         t = truth != neg
                         if cn.get('k') == 'ref' and _symkey(cn) == sym and t:
                             guarded = True
-                        if cn.get('k') == 'bin' and cn.get('op') in ('!=', '>', '<', '==') :
+                        if cn.get('k') == 'bin' and cn.get('op') in ('!=', '>', '<', '==', '<=', '>='):
                             l, r = A.strip(cn['lhs']), A.strip(cn['rhs'])
                             zl = l.get('v') == 0 or l.get('cv') == 0
                             zr = r.get('v') == 0 or r.get('cv') == 0
+                            if cn['op'] == '<=' and not t and _symkey(l) == sym and zr:
+                                guarded = True
+                            if cn['op'] == '>=' and not t and _symkey(r) == sym and zl:
+                                guarded = True
                             if cn['op'] == '!=' and t and ((_symkey(l) == sym and zr) or (_symkey(r) == sym and zl)):
                                 guarded = True
                             if cn['op'] == '==' and not t and ((_symkey(l) == sym and zr) or (_symkey(r) == sym and zl)):
@@ -118,10 +122,14 @@ def _nonzero_guard(P, node, symkey):
             continue
         if cn.get('k') == 'ref' and _symkey(cn) == symkey and t:
             return True
-        if cn.get('k') == 'bin' and cn.get('op') in ('!=', '>', '<', '=='):
+        if cn.get('k') == 'bin' and cn.get('op') in ('!=', '>', '<', '==', '<=', '>='):
             l, r = A.strip(cn['lhs']), A.strip(cn['rhs'])
             zl = l.get('v') == 0 or l.get('cv') == 0
             zr = r.get('v') == 0 or r.get('cv') == 0
+            if cn['op'] == '<=' and not t and _symkey(l) == symkey and zr:      # !(x <= 0)
+                return True
+            if cn['op'] == '>=' and not t and _symkey(r) == symkey and zl:      # !(0 >= x)
+                return True
             if cn['op'] == '!=' and t and ((_symkey(l) == symkey and zr) or (_symkey(r) == symkey and zl)):
                 return True
             if cn['op'] == '==' and not t and ((_symkey(l) == symkey and zr) or (_symkey(r) == symkey and zl)):
@@ -426,7 +434,9 @@ def self_move(progs):
                                 continue
                             vs = {x.get('did') for x in walk(c) if x.get('k') == 'ref' and x.get('dk') == 'local'}
                             cs = {A.cshort(x) for x in walk(c) if x.get('k') == 'call'}
-                            if (vs & lvars) and ((cs & rnames & ELEM_ACCESS) or ('end' in cs and dr[0] == 'acc' and A.cshort(dr[1]) == 'back')):
+                            stepped = any((x.get('k') == 'call' and A.callee(x) in ('std::prev', 'std::next')) or
+                                          (x.get('k') == 'bin' and x.get('op') in ('+', '-') and (A.strip(x.get('rhs') or {}).get('v') == 1)) for x in walk(c))
+                            if (vs & lvars) and ((cs & rnames & ELEM_ACCESS) or ('end' in cs and stepped and dr[0] == 'acc' and A.cshort(dr[1]) == 'back')):
                                 ok, why = True, 'guarded by a comparison of the two positions'
                 rr.instance('%s|%s' % (f['key'], site), {'function': f['pname'][:140], 'site': site, 'same_container': sorted(str(x) for x in common), 'verdict': why or 'FAILS'})
                 if not ok:
